@@ -15,7 +15,19 @@ CHECK = {'pkgs': ['core/consensus/qbft'],
               'messages (plus a DECIDED built with the package\'s createMsg from the captured COMMIT quorum). Every corpus message x alteration '
               'family is fed to a fresh receiver component (fake clock pinned inside the duty\'s slot) through handle (after the wire round trip '
               'and protonil.Check) or, for raw input, through the registered stream handler; rejected input must leave the per-duty instance '
-              'map and every receive buffer unchanged',
+              'map and every receive buffer unchanged. Boundary-slot dimension: the peer-controlled duty slot (uint64) is enumerated over every power '
+              'of two and its neighbours and over the overflow boundaries of slot arithmetic, x every duty type, (a) against the function '
+              'returned by core.NewDutyGater called directly with the clock pinned (option-less constructor = default window and time.Now inside '
+              'a testing/synctest bubble whose fake clock stands still, and WithDutyGaterForT with 0/1/2/5 allowed epochs; 3 beacon specs x 11 '
+              'clocks, 4 of them before genesis) and (b) as correctly signed messages of every kind (justifications signed again as well) '
+              'through handle of a component wired to the option-less core.NewDutyGater, core.NewDutyDeadlineFunc and core.NewDeadliner on '
+              'the bubble\'s fake clock; the expectation is recomputed with math/big. History dimension: the alteration families that leave '
+              'signatures as they are (fields, subst, cross-duty) run against ONE long-lived component per unit whose buffers are not emptied: '
+              'A = the genuine messages first (every message used as a justification, transitively, delivered as the main message it once was, '
+              'then the message itself), then every altered copy, then the genuine messages again; B = after each altered copy the genuine '
+              'messages whose signatures it carries and the base message; F = like B on a fresh component per altered copy; C = after all '
+              'genuine messages of the other duty\'s instance as well. Differential oracle: every delivery (altered or genuine) must get the '
+              'verdict that a component without any history gives the same bytes',
  'claim': 'Corpus (duty attester/slot 1001, leaders member 0/1/2 in rounds 1/2/3): 26 messages = PRE-PREPARE r1 (no justification), PRE-PREPARE r3 '
           'justified by 3 ROUND-CHANGE + 4 PREPARE, 8 PREPARE (r1,r3), 7 COMMIT (r1,r3), 2 ROUND-CHANGE without and 6 with prepared certificate '
           '(3 PREPARE each), DECIDED r3 with 3 COMMIT; every one is first accepted unaltered by the fresh receiver. The real eager timer ends '
@@ -42,19 +54,49 @@ CHECK = {'pkgs': ['core/consensus/qbft'],
           'resolvable by an attached value of the same message type and content as the value it was made for, undecodable or oversized frame. '
           'Everything else may be accepted (and must then be enqueued unchanged, exactly once). Second half: in the live runs (scripted instance '
           'and a plain second instance, also with a member that re-labels the type of the values it forwards) every honest member that decided '
-          'must have handed its subscriber exactly the deterministic proto bytes of the proposal of the round-1 leader = value of the agreed hash',
+          'must have handed its subscriber exactly the deterministic proto bytes of the proposal of the round-1 leader = value of the agreed hash. '
+          'Boundary slots (both tiers unless stated): slot set S(clock) = for every k in 0..63 {2^k-1, 2^k, 2^k+1, 2^k+cur, 2^k+cur+3*slotsPerEpoch} '
+          '+ {M-1, M, M+1, M+cur} with M = MaxInt64/slotDuration[ns] + {2^63-1, 2^63, 2^63+1000, 2^64-1} + {last allowed slot, first gated slot, '
+          '+1, cur, cur+3*spe-1, cur+3*spe} (cur = current slot; about 330 distinct slots). (a) direct: S x duty types {-1..15, MaxInt32, MinInt32, '
+          '2^32+2, -2^32+2} x specs {12s/32, 5s/16, 1s/8} x clocks {genesis, +1ns, slot 1 -1ns, epoch 1 -1ns, epoch 1, slot 1001+3/8, slot '
+          '10000019+3/5, genesis -1ns, -1 slot, -1 epoch, -1000 epochs -1ns} x gaters {option-less, ForT with 0,1,2,5 allowed epochs}; '
+          'expectation: allowed iff 1 <= type <= 13 and floor(slot/spe) <= floor(floor((now-genesis)/slotDuration)/spe) + allowed epochs (2 for '
+          'the option-less gater); both directions are violations; with the clock before genesis only "an invalid type is refused" is judged. '
+          '(b) through handle: every corpus message of the tier (quick 7, thorough 26) x S(slot 1001 + 4.5 s) x wire duty types {-1..14, '
+          'MaxInt32, MinInt32}, message and all justifications signed again for that duty (thorough: also with only the message re-signed, and '
+          'the whole product a second time with the clock at slot 10000019 + 7.3 s); must-reject rules as above with the duty window and '
+          'deadline table computed in math/big for the component\'s clock; a rejected message must leave instance map and buffers unchanged. '
+          'History: per corpus message of the tier, units hist-A/B/F x {fields, subst} and hist-C/B/F x cross; fields = every scalar of msg, '
+          'msg.duty, justification[i], justification[i].duty x the scalar alphabet, every bytes field x the bytes alphabet, value hash and '
+          'prepared value hash = hash of another valid value with that value attached, the duty rewritten consistently in the message and all '
+          'justifications (5 duties) - i.e. every signed field (type, round, value hash, prepared round, prepared value hash, peer index, duty '
+          'slot, duty type) changed under a reused genuine signature at the main position and at every justification position; cross = per '
+          'position: the element with the signature its member made in the other duty, the other duty\'s message relabelled and put in this '
+          'place with its value, every message of the other duty relabelled as this duty, this message relabelled as the other duty, the '
+          'other duty\'s PREPARE carrying these justifications relabelled. Must-reject oracle as above, rejected = instance map, flags and '
+          'buffer lengths unchanged, accepted = exactly one more entry in the buffer of its duty equal to what was sent; genuine messages '
+          'must be accepted before, between and after; verdict with history == verdict without',
  'trusted': 'decred secp256k1 (unforgeability: only what was signed here can verify), protobuf-go (deterministic marshal, Any), fastssz via '
             'hashProto for building the table of known values (cross-checked against the captured messages), testutil Random*Seed generators as '
             'value alphabet. The oracle does not call verifyMsg, verifyMsgLimits, valuesByHash, newMsg, the gater or the deadliner; the duty '
-            'window and deadline table are re-implemented. verifyMsgSig is consulted only to excuse the acceptance of an equivalent encoding of '
+            'window and deadline table are re-implemented (math/big, no fixed-width arithmetic on the oracle\'s side); the default of two allowed '
+            'future epochs is a constant of the harness. testing/synctest: inside a bubble time.Now is a fake clock that does not move while a '
+            'goroutine is runnable. The differential oracle trusts that a newly built component has no history (no package-level state). verifyMsgSig is consulted only to excuse the acceptance of an equivalent encoding of '
             'an unchanged message\'s signature (recovery id 27/28). A correctly signed message with prepared round >= round, or for an exempt '
             'duty type, is outside the statement: whatever handle does with it is not judged',
- 'rule': 'one evaluation = one altered frame handed to a fresh-per-unit real receiver; distinct = (message kind, family, field path or region, '
-         'alteration kind)',
+ 'rule': 'one evaluation = one altered frame handed to a real receiver (fresh per unit; history families: the long-lived receiver of the unit, '
+         'plus one evaluation per genuine message delivered before/after), or one call of the gater function; distinct = (message kind, '
+         'family or history mode, field path or region, alteration kind) resp. (gater kind, slot class, duty type)',
  'budget_s': {'quick': 100, 'thorough': 1500}}
 CHECK["assumptions"] = ENUMX_ASSUME + [
     "one cluster size (n=4, f=1), one duty type (attester) for the corpus; values are single-entry attestation data sets",
-    "one alteration at a time (plus the stated combinations in the limits family); the receiver has no running instance for the duty",
+    "one alteration at a time (plus the stated combinations in the limits family); the receiver has no running instance for the duty "
+    "(nobody consumes the receive buffers; the history families empty them, as a consumer would, when one holds more than 80 of its 100 entries)",
+    "history: clocks do not move during a unit (no duty expires while the component lives); history length is bounded by one unit "
+    "(genuine prefix of at most 8 messages plus the altered copies of one family, up to a few thousand deliveries); the replay file of a "
+    "history violation reproduces the genuine prefix and the one altered copy, not the altered copies delivered before it",
+    "boundary slots: slot durations 12 s, 5 s, 1 s with 32, 16, 8 slots per epoch for the direct calls, 12 s/32 through handle; clocks "
+    "at most 3.8 years after genesis (time.Time.Sub saturates at 292 years; not explored)",
     "goroutine preemption inside the virtual-time run is not controlled: the run is repeated until it yields the expected 26 message keys; "
     "which three members form a quorum inside a justification may differ between shards",
 ]
